@@ -385,9 +385,16 @@ func (h *RequestHeader) RawHeaders() []byte {
 // AppendBytes appends request header representation to dst and returns
 // the extended dst.
 func (h *RequestHeader) AppendBytes(dst []byte) []byte {
+	startLine := len(dst)
 	dst = append(dst, h.Method()...)
 	dst = append(dst, ' ')
 	dst = append(dst, h.RequestURI()...)
+	// The method and the target come from the application (the host of a
+	// proxied request goes into the target as it was set): like every header
+	// line, the start line must stay one line.
+	for i := startLine; i < len(dst); i++ {
+		dst[i] = bytesconv.NewlineToSpaceTable[dst[i]]
+	}
 	dst = append(dst, ' ')
 	dst = append(dst, bytestr.StrHTTP11...)
 	dst = append(dst, bytestr.StrCRLF...)
